@@ -8,7 +8,7 @@ from fractions import Fraction as Fr
 from harness.drive import f2b, b2f
 
 ID = "C14"
-THEOREM_MODULES = ["JF.Props.C14", "JF.Props.C14Float"]
+THEOREM_MODULES = ["JF.Props.C14", "JF.Props.C14Float", "JF.Props.C14FloatInf"]
 COMPONENTS = ["time", "num"]
 ASSUMPTIONS = ["left operands are finite normalised times with |quotient| <= 2^52; displacements in [0, 2^40] or +inf "
                "(the property's quantifier)"]
